@@ -310,6 +310,11 @@ pub struct Shader {
     /// `enable`/`requires` directives etc. are not generated
     /// declaration order of module-scope items: indices into a flattened list, see render
     pub global_order: Vec<usize>,
+    /// 0 = canonical order (structs, constants, overrides, variables, functions, entry points);
+    /// otherwise the module-scope declarations are permuted with this seed (WGSL declarations are
+    /// order-independent). Variables keep their relative order (`global_order`).
+    #[serde(default)]
+    pub item_shuffle: u64,
 }
 
 /// The 41 storage texel formats of naga 24 in naga's declaration order, with the channel scalar.
